@@ -337,7 +337,7 @@ def flagStates (maxVer : Nat) : List OpenSt :=
     (List.range (maxVer + 1)).map fun n => { tables := [], option := o, version := v, ver := n, col := c }
 
 /-- a file lacks the column a newer version adds exactly when its version row says it is older (what every release
-    writes; a kill must not lead out of it — the pre-f3c7ff7 upgrade did) -/
+    writes; a kill must not lead out of it — the pre-6e6fbfe upgrade did) -/
 def consistent (cfg : OpenCfg) (s : OpenSt) : Bool :=
   (!s.version || s.option) &&        -- a version row lives in the option table
   (s.col != (s.option && s.version && decide (0 < s.ver) && decide (s.ver < cfg.latest)))
